@@ -21,6 +21,8 @@ import (
 	"strconv"
 	"strings"
 
+	"github.com/openGemini/openGemini/lib/config"
+	"github.com/openGemini/openGemini/lib/fileops"
 	"github.com/openGemini/openGemini/lib/logger"
 	"github.com/openGemini/openGemini/lib/raftlog"
 	"go.etcd.io/etcd/raft/v3"
@@ -32,13 +34,20 @@ import (
 
 func init() { hx.Register("C17", Run) }
 
-// geometry of an entry file; compile-time constants of lib/raftlog (unexported there); ogfacts
-// regenerates them for the model, and the `files` op compares file sizes, so a drift shows.
-const (
-	capSlots = 30000
-	dataOff  = 1 << 20
-	maxSize  = 32 << 20
+// geometry of an entry file: the compile-time constants of lib/raftlog, read through the verif
+// hook raftlog.VerifGeometry (ogfacts regenerates the same constants for the model; the `files`
+// op compares file sizes).  An overlay that lowers the constants (small-geometry experiment,
+// see smallgeom.sh) is followed by the harness and by the model alike.
+var (
+	capSlots uint64 = 30000
+	dataOff         = 1 << 20
+	maxSize         = 32 << 20
 )
+
+func init() {
+	n, d, m, _, _, _, _ := raftlog.VerifGeometry()
+	capSlots, dataOff, maxSize = uint64(n), d, m
+}
 
 type payload struct {
 	run  bool // n copies of b
@@ -87,6 +96,12 @@ type seq struct {
 	ms   *raft.MemoryStorage
 	id   int
 	dead bool // the store could not be (re)opened; the sequence ends
+	rw   int  // config.EntryFileRWType of this sequence: 2 = FileWrapV2 (default), 1 = FileWrap
+
+	// crash images inside operations (crash.go)
+	crashOn  bool
+	crashMax int // mutation boundaries tried per armed operation
+	tornPer  int // torn variants per write
 
 	// bookkeeping of what was saved (the generator's own view, used to pick arguments)
 	last     uint64   // last index
@@ -707,12 +722,12 @@ func (s *seq) doCrashRotate() {
 			return false
 		}
 		path := filepath.Join(d, curName)
-		tab, err := readAt(path, 0, capSlots*32)
+		tab, err := readAt(path, 0, int(capSlots)*32)
 		if err != nil {
 			return false
 		}
 		k := 0
-		for k < capSlots && be64(tab[k*32+8:]) != 0 {
+		for k < int(capSlots) && be64(tab[k*32+8:]) != 0 {
 			k++
 		}
 		if k == 0 {
@@ -810,6 +825,7 @@ func (s *seq) randPayload(big bool) payload {
 
 // doSave: start index and groups chosen by the caller (start <= last+1, start > commit).
 func (s *seq) doSave(start uint64, gs []group, withHS, withSnap int) {
+	preLast := s.last
 	var ents []raftpb.Entry
 	var gtxt []string
 	idx := start
@@ -843,6 +859,10 @@ func (s *seq) doSave(start uint64, gs []group, withHS, withSnap int) {
 	}
 	var hs *raftpb.HardState
 	hsTxt := "-"
+	if withHS == 1 && s.crashOn && len(ents) > 0 && s.r.Chance(60) {
+		// a follower's Ready: the entries and a commit index that already covers some of them
+		s.commit = start + uint64(s.r.Intn(len(ents)))
+	}
 	switch withHS {
 	case 1:
 		hs = &raftpb.HardState{Term: s.curTerm, Vote: uint64(s.r.Intn(4)), Commit: s.commit}
@@ -875,8 +895,25 @@ func (s *seq) doSave(start uint64, gs []group, withHS, withSnap int) {
 		snTxt = snapText(*sn)
 	}
 	op := fmt.Sprintf("save %s %s %d %s", hsTxt, snTxt, start, groups)
+	var cc *crashCtx
+	if len(ents) <= 600 {
+		idx := uint64(0)
+		if len(ents) > 0 {
+			idx = start
+		}
+		if cc = s.arm(op, idx, ents, preLast); cc != nil {
+			cc.postHS, cc.postSnap = cc.preHS, cc.preSnap
+			if hs != nil && !raft.IsEmptyHardState(*hs) {
+				cc.postHS = *hs
+			}
+			if sn != nil && raftlog.IsValidSnapshot(*sn) {
+				cc.postSnap = *sn
+			}
+		}
+	}
 	var err error
 	p := hx.Safe(func() { err = s.rds.Save(hs, ents, sn) })
+	s.finish(cc)
 	ans := "ok"
 	if p != "" {
 		ans = "err " + p
@@ -932,16 +969,28 @@ func (s *seq) randConf() raftpb.ConfState {
 }
 
 // genSave picks a batch: append or conflict, sizes biased to cross a slot-table boundary.
-func (s *seq) genSave(profile int) {
+func (s *seq) genSave(profile int) { s.genSaveAt(profile, 0) }
+
+// genSaveAt: forced != 0 fixes the first index (a conflict the caller aims at a file boundary)
+func (s *seq) genSaveAt(profile int, forced uint64) {
 	start := s.last + 1
-	if s.last > s.commit && s.r.Chance(40) {
+	if forced != 0 {
+		start = forced
+	} else if s.last > s.commit && s.r.Chance(40) {
 		// conflict: somewhere in (commit, last]
 		span := s.last - s.commit
-		switch s.r.Intn(4) {
+		which := s.r.Intn(4)
+		if profile == 5 && s.last > capSlots && s.r.Chance(50) {
+			which = 1
+		}
+		switch which {
 		case 0:
 			start = s.last - uint64(s.r.Intn(int(minU(span, 3))))
 		case 1: // just around a file boundary if one is in reach
 			b := (s.last / capSlots) * capSlots
+			if nb := int(s.last / capSlots); nb > 1 && s.r.Bool() {
+				b = uint64(1+s.r.Intn(nb)) * capSlots // an earlier boundary: more than one file gets deleted
+			}
 			d := uint64(s.r.Intn(8))
 			cand := b + 1 - minU(d, b)
 			if s.r.Bool() {
@@ -974,6 +1023,7 @@ func (s *seq) genSave(profile int) {
 	total := 1 + s.r.Intn(12)
 	big := false
 	switch {
+	case forced != 0:
 	case profile >= 1 && s.r.Chance(35):
 		// reach just before / exactly / just past the next slot-table boundary
 		nextB := ((start-1)/capSlots + 1) * capSlots
@@ -1079,15 +1129,24 @@ func (s *seq) doMksnap() {
 	}
 	cs := s.randConf()
 	data := []byte(fmt.Sprintf("cd%d", i))
+	op := fmt.Sprintf("mksnap %d 0 %s %s", i, confToken(cs), dataToken(data))
+	cc := s.arm(op, 0, nil, s.last)
+	if cc != nil {
+		cc.postHS, cc.postSnap = cc.preHS, cc.preSnap
+		if i >= 1 && i <= s.last {
+			cc.postSnap = raftpb.Snapshot{Data: data, Metadata: raftpb.SnapshotMetadata{Index: i, Term: s.terms[i], ConfState: cs}}
+		}
+	}
 	var err error
 	p := hx.Safe(func() { err = s.rds.CreateSnapshot(i, &cs, data) })
+	s.finish(cc)
 	ans := "ok"
 	if p != "" {
 		ans = "err " + p
 	} else if err != nil {
 		ans = "err " + errName(err)
 	}
-	line := s.emit(fmt.Sprintf("mksnap %d 0 %s %s", i, confToken(cs), dataToken(data)), ans)
+	line := s.emit(op, ans)
 	s.c.Count("op:mksnap:" + errOf(ans))
 	if want := s.expectMksnap(i); ans != want {
 		s.viol(line, "create_snapshot", fmt.Sprintf("CreateSnapshot(%d): store %s, expected %s (first %d last %d snap %d)", i, ans, want, s.refFirst(), s.refLast(), si))
@@ -1117,21 +1176,34 @@ func (s *seq) doDelBefore() {
 			i = 1 + uint64(s.r.Intn(int(s.commit)))
 		}
 	}
+	op := fmt.Sprintf("delbefore %d", i)
+	cc := s.arm(op, 0, nil, s.last)
+	if cc != nil {
+		cc.postHS, cc.postSnap, cc.delBound = cc.preHS, cc.preSnap, i
+	}
 	var err error
 	p := hx.Safe(func() { err = s.rds.DeleteBefore(i) })
+	s.finish(cc)
 	ans := "ok"
 	if p != "" {
 		ans = "err " + p
 	} else if err != nil {
 		ans = "err " + errName(err)
 	}
-	line := s.emit(fmt.Sprintf("delbefore %d", i), ans)
+	line := s.emit(op, ans)
 	s.c.Count("op:delbefore:" + errOf(ans))
 	if p != "" {
 		s.viol(line, "panic", "DeleteBefore "+p)
 	}
 	s.syncFirst(line, i, fmt.Sprintf("DeleteBefore(%d)", i))
 	s.probes()
+}
+
+func minInt(a, b int) int {
+	if a < b {
+		return a
+	}
+	return b
 }
 
 func minU(a, b uint64) uint64 {
@@ -1165,30 +1237,48 @@ func (s *seq) advanceCommit() {
 	}
 }
 
-func runSeq(c *hx.Ctx, r *hx.Rng, id int, root string, profile int) {
-	s := &seq{c: c, r: r, id: id, dir: filepath.Join(root, fmt.Sprintf("s%d", id)), ms: raft.NewMemoryStorage(), terms: []uint64{0}, first: 1}
+func runSeq(c *hx.Ctx, r *hx.Rng, id int, root string, profile int, rw int) {
+	s := &seq{c: c, r: r, id: id, dir: filepath.Join(root, fmt.Sprintf("s%d", id)), ms: raft.NewMemoryStorage(), terms: []uint64{0}, first: 1, rw: rw}
 	defer func() {
+		rec.on = false
 		if s.rds != nil {
 			hx.Safe(func() { _ = s.rds.Close() })
 		}
 		os.RemoveAll(s.dir)
 		os.RemoveAll(strings.TrimRight(s.dir, "x"))
+		os.RemoveAll(s.dir + "-img")
 	}()
 	os.RemoveAll(s.dir)
+	config.SetEntryFileRWType(rw)
 	if !s.open() {
-		line := s.emit("new", "err init")
+		line := s.emit(fmt.Sprintf("new %d", rw), "err init")
 		s.viol(line, "init_failed", "Init on an empty directory failed")
 		return
 	}
-	s.emit("new", "ok")
+	s.emit(fmt.Sprintf("new %d", rw), "ok")
 	c.Count(fmt.Sprintf("profile:%d", profile))
+	c.Count(fmt.Sprintf("rw-type:%d", rw))
 	if s.r.Chance(30) {
 		s.queries(2) // the empty log
 	}
 	nops := 6 + s.r.Intn(30)
+	s.crashMax, s.tornPer = 24, 1
+	if c.Tier == "thorough" {
+		s.crashMax, s.tornPer = 60, 2
+	}
+	if v := c.Arg("crashmax", ""); v != "" {
+		s.crashMax, _ = strconv.Atoi(v)
+	}
+	if v := c.Arg("torn", ""); v != "" {
+		s.tornPer, _ = strconv.Atoi(v)
+	}
+	crashWanted := profile == 5 || (profile <= 2 && s.r.Chance(12))
+	if c.Arg("crash", "1") == "0" {
+		crashWanted = false
+	}
 	switch profile {
 	case 1: // start close to the first slot-table boundary
-		n := capSlots - 30 + s.r.Intn(50)
+		n := int(capSlots) - 30 + s.r.Intn(50)
 		k := 1 + s.r.Intn(3)
 		var gs []group
 		for j := 0; j < k; j++ {
@@ -1202,22 +1292,67 @@ func runSeq(c *hx.Ctx, r *hx.Rng, id int, root string, profile int) {
 			gs[0].pl = payload{data: []byte{0xab, byte(s.r.Intn(256))}}
 		}
 		s.doSave(1, gs, 1, 0)
-		s.crossed = n > capSlots
+		s.crossed = n > int(capSlots)
 		s.advanceCommit()
 		nops = 6 + s.r.Intn(16)
 	case 2: // two or three files from the start
-		n := 2*capSlots - 20 + s.r.Intn(capSlots/2)
+		n := 2*int(capSlots) - 20 + s.r.Intn(int(capSlots)/2)
 		s.doSave(1, []group{{n: n / 2, term: 1, typ: 0, pl: payload{data: []byte{1}}}, {n: n - n/2, term: 2, typ: 0, pl: payload{}}}, 1, 0)
 		s.crossed = true
 		s.advanceCommit()
 		nops = 6 + s.r.Intn(14)
+	case 5: // crash images inside operations: small logs, or a log prepared so that the armed
+		// operations rotate, or conflict into a rotated file with one or two files behind it
+		nops = 5 + s.r.Intn(8)
+		var n int
+		switch s.r.Intn(6) {
+		case 1:
+			n = int(capSlots) - 3 - s.r.Intn(12)
+		case 2:
+			n = int(capSlots) + 2 + s.r.Intn(9)
+		case 3, 4:
+			n = 2*int(capSlots) + 1 + s.r.Intn(7)
+		}
+		if n > 0 {
+			pl := payload{}
+			if s.r.Chance(40) {
+				pl = payload{data: []byte{0xc1, byte(s.r.Intn(256))}}
+			}
+			s.doSave(1, []group{{n: n, term: 1, typ: 0, pl: pl}}, 1, 0)
+			s.crossed = n > int(capSlots)
+			// keep the tail of the first file uncommitted so that conflicts can reach back into it
+			s.commit = uint64(minInt(n, int(capSlots)) - 3 - s.r.Intn(8))
+			if s.r.Chance(35) {
+				s.commit = s.last - uint64(s.r.Intn(3))
+			}
+		}
+		s.crashOn = crashWanted
+		if nb := int(s.last / capSlots); nb >= 1 && s.commit < capSlots && s.r.Chance(70) {
+			// aimed: a conflicting save at the end of an earlier file, so that one or two later files
+			// (and the current one) are deleted and that file becomes current again
+			b := capSlots
+			if nb > 1 && s.r.Chance(30) {
+				b = 2 * capSlots
+			}
+			at := b - uint64(s.r.Intn(4)) // the last slots of the earlier file
+			if s.r.Chance(20) {
+				at = b + 1 + uint64(s.r.Intn(3)) // the first slots of the later one
+			}
+			if at > s.commit && at <= s.last {
+				s.genSaveAt(profile, at)
+				s.queries(2)
+			}
+		}
 	}
+	s.crashOn = crashWanted
 	for k := 0; k < nops && !s.dead; k++ {
 		x := s.r.Intn(100)
 		switch {
 		case x < 45:
 			s.genSave(profile)
-			s.advanceCommit()
+			if profile != 5 || s.r.Chance(50) {
+				s.advanceCommit()
+			}
 		case x < 55:
 			s.doMksnap()
 		case x < 65:
@@ -1326,30 +1461,47 @@ func Run(c *hx.Ctx) error {
 	if v := c.Arg("only", ""); v != "" {
 		only, _ = strconv.Atoi(v)
 	}
-	// hx.NewRng(k+1) is the stream of hx.NewRng(k) shifted by one step; take one mixed output as
-	// the master seed so that different -seed values give unrelated sequences
-	master := hx.NewRng(hx.NewRng(c.Seed).U64() ^ 0xC17C17)
+	fileops.SetVerifIOObserver(rec)
+	defer fileops.SetVerifIOObserver(nil)
+	// fsync is not observable by anything the harness looks at (it reads through the same page
+	// cache); thousands of directory images are opened and closed
+	fileops.SetVerifIONoSync(true)
+	defer fileops.SetVerifIONoSync(false)
+	defer config.SetEntryFileRWType(config.DefaultEntryFileRWType)
+	// hx.NewRng scrambles its seed (hx commit 87273d3), so consecutive -seed values give unrelated
+	// streams; the harness no longer re-mixes it
+	master := hx.NewRng(c.Seed)
 	for id := 0; id < n; id++ {
 		r := master.Fork()
 		x := r.Intn(100)
 		profile := 0
 		switch {
-		case x < 22:
+		case x < 18:
 			profile = 1
-		case x < 30:
+		case x < 25:
 			profile = 2
-		case x < 32:
+		case x < 27:
 			profile = 3
-		case x < 36:
+		case x < 31:
 			profile = 4
+		case x < 46:
+			profile = 5
 		}
 		if v := c.Arg("profile", ""); v != "" {
 			profile, _ = strconv.Atoi(v)
 		}
+		// a quarter of the sequences run on the other file wrapper (entry-file-rw-type = 1)
+		rw := 2
+		if r.Chance(25) {
+			rw = 1
+		}
+		if v := c.Arg("rw", ""); v != "" {
+			rw, _ = strconv.Atoi(v)
+		}
 		if only >= 0 && id != only {
 			continue
 		}
-		runSeq(c, r, id, root, profile)
+		runSeq(c, r, id, root, profile, rw)
 	}
 	return nil
 }
